@@ -5,6 +5,7 @@ import (
 	"errors"
 	"github.com/LemoFoundationLtd/lemochain-core/common"
 	"github.com/LemoFoundationLtd/lemochain-core/common/crypto"
+	"math/big"
 )
 
 var (
@@ -39,6 +40,11 @@ func recoverSigners(sigHash common.Hash, sigs [][]byte) ([]common.Address, error
 		pub, err := crypto.Ecrecover(sigHash[:], sigs[i])
 		if err != nil {
 			return nil, err
+		}
+		// only the canonical (low s) encoding of a signature is valid, or anyone could re-encode a signed tx into one with a new hash
+		r, s := new(big.Int).SetBytes(sigs[i][:32]), new(big.Int).SetBytes(sigs[i][32:64])
+		if !crypto.ValidateSignatureValues(sigs[i][64], r, s) {
+			return nil, ErrInvalidSig
 		}
 		if len(pub) == 0 || pub[0] != 4 {
 			return nil, ErrPublicKey
